@@ -87,6 +87,11 @@ def verify_one(target):
                 sl = to_smt2_sliced(o, bg)
                 if sl is not None:
                     item["sliced"] = sl
+                if getattr(o, "alt", None):
+                    from pyvc.symex import Obligation as _Ob
+                    o2 = _Ob(o.name, list(o.assumptions) + list(o.alt), o.goal, o.kind, o.line, o.extra)
+                    item["alt_nobg"] = to_smt2(o2, [])
+                    item["alt"] = to_smt2(o2, bg)
             for f in v.finding_specs:
                 if f.get("kind") and f["kind"] != o.kind:
                     continue
@@ -127,7 +132,14 @@ def cascade(item, seed, timeout):
     if r is None and item.get("nobg"):
         r = discharge_singles(item["name"], item["kind"], item["line"], item["nobg"], seed=seed)
     if r is None:
-        r = discharge_smt2(item["name"], item["kind"], item["line"], item["smt2"], timeout_ms=timeout, seed=seed)
+        r = discharge_smt2(item["name"], item["kind"], item["line"], item["smt2"], timeout_ms=timeout, seed=seed, retries=0 if item.get("alt") else 2)
+    if r.status == "unknown" and item.get("alt"):
+        # the same problem with further instances of its own assumptions (at the literal indexes 0, 1, 2) added
+        for key, to in (("alt_nobg", 5000), ("alt", timeout)):
+            ra = discharge_smt2(item["name"], item["kind"], item["line"], item[key], timeout_ms=to, use_cvc5=False, seed=seed, retries=0)
+            if ra.status == "proved":
+                ra.backend = "z3 (with instances of the assumptions at literal indexes)"
+                return ra
     return r
 
 
